@@ -139,6 +139,41 @@ package raftpb
 //@ loop 1 modifies elems(dAtA)
 //@ loop 1 invariant i == 1 + strlen(m.Filepath) + vlen(strlen(m.Filepath)) + 1 + vlen(m.FileSize) + 1 + vlen(m.Index) + 1 + vlen(m.Term) + 1 + uf("memsz", ptr(m.Membership)) + vlen(uf("memsz", ptr(m.Membership))) + uf("sumfiles", ptr(m.Files), $i + 1)
 
+// ---- snapshot chunks on the wire (hand-optimised protobuf codec): Size() is the exact encoded size,
+// MarshalTo writes exactly that many bytes and never indexes outside a buffer of that size
+//@ pred (m *Chunk) chsize() := 1 + vlen(m.ShardID) + 1 + vlen(m.ReplicaID) + 1 + vlen(m.From) + 1 + vlen(m.ChunkId) + 1 + vlen(m.ChunkSize) + 1 + vlen(m.ChunkCount) + ite(m.Data != nil, 1 + len(m.Data) + vlen(len(m.Data)), 0) + 1 + vlen(m.Index) + 1 + vlen(m.Term) + 1 + uf("memsz", ptr(m.Membership)) + vlen(uf("memsz", ptr(m.Membership))) + 1 + strlen(m.Filepath) + vlen(strlen(m.Filepath)) + 1 + vlen(m.FileSize) + 1 + vlen(m.DeploymentId) + 1 + vlen(m.FileChunkId) + 2 + vlen(m.FileChunkCount) + 3 + 2 + as(*SnapshotFile, ptr(m.FileInfo)).sfsize() + vlen(as(*SnapshotFile, ptr(m.FileInfo)).sfsize()) + 2 + vlen(m.BinVer) + 2 + vlen(m.OnDiskIndex) + 3
+//@ pred (m *Chunk) small() := strlen(m.Filepath) < 1099511627776 && len(m.Data) < 1099511627776 && uf("memsz", ptr(m.Membership)) >= 0 && uf("memsz", ptr(m.Membership)) < 1099511627776 && as(*SnapshotFile, ptr(m.FileInfo)).small()
+//@ func (m *Chunk) Size [C13 C15]
+//@ free requires m != nil ==> m.small()
+//@ ensures m != nil ==> result == m.chsize()
+//@ func (m *Chunk) MarshalTo [C13 C15]
+//@ free requires m.small()
+//@ requires len(dAtA) >= m.chsize()
+//@ modifies elems(dAtA)
+//@ ensures result1 == nil ==> result0 == m.chsize()
+
+// ---- config change entries and snapshot file headers (same codec style)
+//@ pure venum(x int) := vlen(ite(x < 0, x + 18446744073709551616, x))
+//@ pred (m *ConfigChange) ccsize() := 1 + vlen(m.ConfigChangeId) + 1 + venum(m.Type) + 1 + vlen(m.ReplicaID) + 1 + strlen(m.Address) + vlen(strlen(m.Address)) + 2
+//@ func (m *ConfigChange) Size [C13]
+//@ free requires m != nil ==> strlen(m.Address) < 1099511627776
+//@ ensures m != nil ==> result == m.ccsize()
+//@ func (m *ConfigChange) MarshalTo [C13]
+//@ free requires strlen(m.Address) < 1099511627776
+//@ requires len(dAtA) >= m.ccsize()
+//@ modifies elems(dAtA)
+//@ ensures result0 == m.ccsize() && result1 == nil
+//@ pred (m *SnapshotHeader) shsize() := 1 + vlen(m.SessionSize) + 1 + vlen(m.DataStoreSize) + 1 + vlen(m.UnreliableTime) + 1 + strlen(m.GitVersion) + vlen(strlen(m.GitVersion)) + ite(m.HeaderChecksum != nil, 1 + len(m.HeaderChecksum) + vlen(len(m.HeaderChecksum)), 0) + ite(m.PayloadChecksum != nil, 1 + len(m.PayloadChecksum) + vlen(len(m.PayloadChecksum)), 0) + 1 + venum(m.ChecksumType) + 1 + vlen(m.Version) + 1 + venum(m.CompressionType)
+//@ pred (m *SnapshotHeader) small() := strlen(m.GitVersion) < 1099511627776 && len(m.HeaderChecksum) < 1099511627776 && len(m.PayloadChecksum) < 1099511627776
+//@ func (m *SnapshotHeader) Size [C13 C14]
+//@ free requires m != nil ==> m.small()
+//@ ensures m != nil ==> result == m.shsize()
+//@ func (m *SnapshotHeader) MarshalTo [C13 C14]
+//@ free requires m.small()
+//@ requires len(dAtA) >= m.shsize()
+//@ modifies elems(dAtA)
+//@ ensures result0 == m.shsize() && result1 == nil
+
 //@ func (u *Update) SizeUpperLimit [C13]
 //@ free requires sumdef(u.EntriesToSave) && uf("sumlim", ptr(u.EntriesToSave), len(u.EntriesToSave)) < 4611686018427387904
 //@ ensures len(u.EntriesToSave) == 0 && u.Snapshot.Index == 0 ==> result == 22 + 56 + 48
